@@ -5,6 +5,7 @@ pub mod eng;
 pub mod oracle;
 pub mod out;
 pub mod rng;
+pub mod search;
 pub mod tables;
 
 use std::sync::Mutex;
@@ -50,6 +51,9 @@ pub struct Args {
     pub only_job: Option<usize>,
     pub time_cap: u64,
     pub rest: Vec<String>,
+    pub shard: usize,
+    pub of: usize,
+    pub results: Option<String>,
 }
 
 fn parse_args() -> Args {
@@ -64,6 +68,9 @@ fn parse_args() -> Args {
         only_job: None,
         time_cap: 100_000,
         rest: Vec::new(),
+        shard: 0,
+        of: 1,
+        results: None,
     };
     let mut i = 2;
     while i < argv.len() {
@@ -91,6 +98,18 @@ fn parse_args() -> Args {
             }
             "--job" => {
                 a.only_job = v.parse().ok();
+                i += 1;
+            }
+            "--shard" => {
+                a.shard = v.parse().unwrap_or(0);
+                i += 1;
+            }
+            "--of" => {
+                a.of = v.parse().unwrap_or(1);
+                i += 1;
+            }
+            "--results" => {
+                a.results = Some(v);
                 i += 1;
             }
             "--time-cap" => {
@@ -143,6 +162,17 @@ pub fn main() {
             }
         }
         "tables" => tables::run(&a.tier, a.seed, a.threads),
+        "search" => {
+            let r = match a.prop.as_str() {
+                "C11" => search::run_c11(&a.tier, a.seed, a.shard, a.of, a.only_job, a.time_cap),
+                "C13" => search::run_c13(&a.tier, a.seed, a.shard, a.of, a.only_job, a.time_cap),
+                "C16" => search::run_c16(&a.tier, a.seed, a.shard, a.of, a.results.as_deref(), a.time_cap),
+                other => Err(format!("unknown search property '{other}'")),
+            };
+            if let Err(e) = r {
+                out::harness_error(e);
+            }
+        }
         other => {
             eprintln!("unknown command '{other}'");
             std::process::exit(2);
